@@ -56,6 +56,22 @@ def data_images(path):
     return out
 
 
+def data_many(op, paths):
+    """`drv_c03 sizesmany|imagemany` over many modules: {path: {name: fields}}"""
+    res = {p: {} for p in paths}
+    for i in range(0, len(paths), 150):
+        r = subprocess.run([progrun.drv03(), op] + paths[i:i + 150], stdout=subprocess.PIPE, stderr=subprocess.PIPE, text=True)
+        cur = None
+        for ln in r.stdout.splitlines():
+            if ln.startswith("== "):
+                cur = ln[3:]
+                continue
+            t = ln.split()
+            if cur is not None and len(t) >= 3 and not ln.startswith("bad parse"):
+                res[cur][t[0]] = (int(t[1]), int(t[2])) if op == "sizesmany" else t[2]
+    return res
+
+
 def token_mutants(rng, text, n):
     """simple token-level mutations (delete / duplicate / swap / replace an operator or number)"""
     toks = re.findall(r"[A-Za-z_]\w*|\d+\w*|\S", text)
@@ -91,7 +107,8 @@ def run(ck):
     ck.cov["rule"] = ("validator `wf` (proved sound in Props/C03) on cproc-qbe's real output: regression corpus x 3 targets, "
                       "cproc's own 18 preprocessed sources, generated programs, token-level mutants that still compile; "
                       "distinct_nontrivial = distinct accepted modules with at least one function or data definition")
-    ck.lean_build()
+    with ck.phase("lean"):
+        ck.lean_build()
     cc = ck.build_cproc_qbe()
     d = os.path.join(ck.scratch(), "c03")
     os.makedirs(d)
@@ -230,7 +247,8 @@ def run(ck):
             return (job, out, "timeout", "")
         return (job, out, rc, err)
 
-    results = progrun.run_many(comp, jobs)
+    with ck.phase("compile"):
+        results = progrun.run_many(comp, jobs)
     ok_files, meta = [], {}
     for job, out, rc, err in results:
         label = job[0]
@@ -252,7 +270,9 @@ def run(ck):
             stats[label] += 1
         ok_files.append(out)
         meta[out] = job
-    for path, res in progrun.wf(ok_files):
+    with ck.phase("wf"):
+        wfres = progrun.wf(ok_files)
+    for path, res in wfres:
         job = meta[path]
         ck.count(path)
         if res.startswith("ok"):
@@ -265,8 +285,11 @@ def run(ck):
             return
     # 5. data definitions: size == sizeof, alignment >= _Alignof (generated programs carry probes);
     #    every data definition of every accepted module has a power-of-two alignment >= 1
+    with ck.phase("data"):
+        all_sz = data_many("sizesmany", list(meta))
+        all_img = data_many("imagemany", [p for p, j in meta.items() if j[0] in ("generated", "late-types", "initialisers")])
     for path, job in meta.items():
-        sz = data_sizes(path)
+        sz = all_sz[path]
         for name, (size, align) in sz.items():
             if align < 1 or align & (align - 1):
                 ck.violation({"kind": "data-align", "source": open(job[1]).read()[:6000], "target": job[2], "object": name,
@@ -274,7 +297,7 @@ def run(ck):
                 return
         if job[0] not in ("generated", "late-types", "initialisers"):
             continue
-        img = data_images(path)
+        img = all_img[path]
         for name, (size, align) in sz.items():
             if name + "__sz" in img:
                 want = int.from_bytes(bytes.fromhex(img[name + "__sz"]), "little")
